@@ -136,6 +136,8 @@ def observe(form, t, rng, hdrs=None, method="GET", ver=11, vary=False):
     for n, v in hdrs:
         if n == 5:
             raw = b"/"                   # a hyphen-spelled look-alike of the SCRIPT_NAME forwarder header
+        elif v == 999:
+            raw = rng.choice([b"", b"", b" ", b"\t "]) if vary else b""      # an empty field value (a list member all the same)
         else:
             pre, suf = rng.choice(WRAPS) if vary else (b"", b"")
             raw = pre + b"v%d" % v + suf
@@ -214,11 +216,11 @@ def c15(ctx):
     for _ in range(1500 if ctx.quick else 20000):
         form = rng.choice(["origin", "origin", "dslash", "abs", "mount"])
         t = [rng.choice(SYMS) for _ in range(rng.randint(0, 10))]
-        hdrs = [[rng.randint(1, 4), i + 1] for i in range(rng.randint(0, 6))]
+        hdrs = [[rng.randint(1, 4), 999 if rng.random() < 0.2 else i + 1] for i in range(rng.randint(0, 6))]
         if rng.random() < 0.1 and form != "abs":
             hdrs.append([5, 500])
         add(form, t, hdrs=hdrs, method=rng.choice(["GET", "POST", "DELETE", "OPTIONS", "M-SEARCH", "PATCH"]),
-            ver=rng.choice([10, 11]), vary=True)
+            ver=rng.choice([10, 11, 11, 12, 15, 19]), vary=True)
     add("star", [], method="OPTIONS")
     ctx.coverage["rejected_by_parser"] = nrej
     verdicts, stats = tlc.validate_batch("EnvironTrace", "EnvironTrace.cfg", traces, name="EnvironTrace_C15", chunk=6000)
